@@ -1,4 +1,5 @@
 (* C02 proofs: Proofs1 (sums over Q, elimination step, no-subtraction invariant), Proofs2 (reduction as a matrix
    sequence, back-substitution recurrence), Proofs3 (censoring induction), Proofs4 (gth over Q: final theorems),
-   Proofs5 (rows of MarkovChain.stationary_distributions). *)
-From QE Require Export C02.Proofs1 C02.Proofs2 C02.Proofs3 C02.Proofs4 C02.Proofs5.
+   Proofs5 (rows of MarkovChain.stationary_distributions),
+   Proofs6 (irreducible => strictly positive; exact support of the rows). *)
+From QE Require Export C02.Proofs1 C02.Proofs2 C02.Proofs3 C02.Proofs4 C02.Proofs5 C02.Proofs6.
